@@ -87,6 +87,66 @@ type Top struct {
 	When   time.Time
 }
 
+// Deep4: THREE levels of embedding (In2 > In3 > In4), the innermost struct has four fields: the embed paths of
+// p4/q4/R4/s4 have length 4.  Chain: seven levels, two or three fields at every level (embed paths up to length 7).
+type In4 struct {
+	P4 int64  `json:"p4"`
+	Q4 string `json:"q4"`
+	R4 float64
+	S4 bool `json:"s4"`
+}
+type In3 struct {
+	In4
+	C3 int64 `json:"c3"`
+	D3 string
+}
+type In2 struct {
+	In3
+	C2 string `json:"c2"`
+}
+type Deep4 struct {
+	In2
+	C1    int64 `json:"c1"`
+	Leafp *Leaf `json:"leafp"`
+}
+type Ch7 struct {
+	A7 int64  `json:"a7"`
+	B7 string `json:"b7"`
+	C7 int64
+}
+type Ch6 struct {
+	Ch7
+	A6 int64  `json:"a6"`
+	B6 string `json:"b6"`
+}
+type Ch5 struct {
+	Ch6
+	A5 int64  `json:"a5"`
+	B5 string `json:"b5"`
+}
+type Ch4 struct {
+	Ch5
+	A4 int64  `json:"a4"`
+	B4 string `json:"b4"`
+}
+type Ch3 struct {
+	Ch4
+	A3 int64  `json:"a3"`
+	B3 string `json:"b3"`
+}
+type Ch2 struct {
+	Ch3
+	A2 int64  `json:"a2"`
+	B2 string `json:"b2"`
+}
+type Chain struct {
+	Ch2
+	A1 int64  `json:"a1"`
+	B1 string `json:"b1"`
+}
+
+func (*Deep4) ShapeName() string { return "deep4" }
+func (*Chain) ShapeName() string { return "chain" }
 func (*Leaf) ShapeName() string  { return "leaf" }
 func (*Flat) ShapeName() string  { return "flat" }
 func (*Mid) ShapeName() string   { return "mid" }
@@ -105,6 +165,19 @@ func (e *Echoer) EchoTop(x *Top) *Top       { return x }
 func (e *Echoer) EchoClash(x *Clash) *Clash { return x }
 func (e *Echoer) EchoBase(x *Base) *Base    { return x }
 
+func (e *Echoer) EchoDeep4(x *Deep4) *Deep4 { return x }
+func (e *Echoer) EchoChain(x *Chain) *Chain { return x }
+
+// See*: what a Go method sees of its argument (canonical rendering), for the history stream.
+func (e *Echoer) SeeLeaf(x *Leaf) string   { return renderGo(x) }
+func (e *Echoer) SeeFlat(x *Flat) string   { return renderGo(x) }
+func (e *Echoer) SeeMid(x *Mid) string     { return renderGo(x) }
+func (e *Echoer) SeeTop(x *Top) string     { return renderGo(x) }
+func (e *Echoer) SeeClash(x *Clash) string { return renderGo(x) }
+func (e *Echoer) SeeBase(x *Base) string   { return renderGo(x) }
+func (e *Echoer) SeeDeep4(x *Deep4) string { return renderGo(x) }
+func (e *Echoer) SeeChain(x *Chain) string { return renderGo(x) }
+
 type regEntry struct {
 	name string
 	mk   func() interface{}
@@ -119,6 +192,8 @@ var regTable = []regEntry{
 	{"mid", func() interface{} { return &Mid{} }},
 	{"top", func() interface{} { return &Top{} }},
 	{"echoer", func() interface{} { return &Echoer{} }},
+	{"deep4", func() interface{} { return &Deep4{} }},
+	{"chain", func() interface{} { return &Chain{} }},
 }
 
 func registerTypes() {
